@@ -366,7 +366,12 @@ spif_array_list_dup(spif_array_t self)
     memcpy(tmp, self, SPIF_SIZEOF_TYPE(array));
     tmp->items = (spif_obj_t *) MALLOC(sizeof(spif_obj_t) * self->len);
     for (i = 0; i < self->len; i++) {
-        tmp->items[i] = (spif_obj_t) SPIF_OBJ_DUP(SPIF_OBJ(self->items[i]));
+        if (SPIF_OBJ_ISNULL(self->items[i])) {
+            /* NULL placeholder left by insert_at() */
+            tmp->items[i] = (spif_obj_t) NULL;
+        } else {
+            tmp->items[i] = (spif_obj_t) SPIF_OBJ_DUP(SPIF_OBJ(self->items[i]));
+        }
     }
     return tmp;
 }
